@@ -347,7 +347,19 @@ Definition mon_C08 (tr : trace) : list failure :=
     end) (rpcs_of tr).
 
 (* ---------- C10 ---------- *)
+Definition mon_stop (c : cfg) (tr : trace) : list failure :=
+  let td := teardown_at tr in
+      (* Stop returns only after every Serve call has returned (1004) *)
+      flat_map (fun e => match e with
+         | (a, Ret Ctl OOther _ 1 _ _ _ _ _ _) =>
+             let started := N.of_nat (length (filter (fun x => match snd x with Stim StOpen _ _ _ => fst x <? a | _ => false end) tr)) in
+             let returned := N.of_nat (length (filter (fun x => match snd x with ServeRet _ _ _ => fst x <=? a | _ => false end) tr)) in
+             let after_td := match td with Some x => x <=? a | None => false end in
+             if c_rev c && negb (c_raws c) && negb after_td && (returned <? started) then fl 1004 a 0 0 else []
+         | _ => [] end) tr.
+
 Definition mon_C10 (c : cfg) (tr : trace) : list failure :=
+  mon_stop c tr ++
   match filter (fun e => match snd e with Stim StShutdown _ _ _ => true | _ => false end) tr with
   | [] => []
   | (as_, _) :: _ =>
@@ -376,14 +388,6 @@ Definition mon_C10 (c : cfg) (tr : trace) : list failure :=
                   else []
               end
           end end) (rpcs_of tr) ++
-      (* Stop returns only after every Serve call has returned (1004) *)
-      flat_map (fun e => match e with
-         | (a, Ret Ctl OOther _ 1 _ _ _ _ _ _) =>
-             let started := N.of_nat (length (filter (fun x => match snd x with Stim StOpen _ _ _ => fst x <? a | _ => false end) tr)) in
-             let returned := N.of_nat (length (filter (fun x => match snd x with ServeRet _ _ _ => fst x <=? a | _ => false end) tr)) in
-             let after_td := match td with Some x => x <=? a | None => false end in
-             if c_rev c && negb (c_raws c) && negb after_td && (returned <? started) then fl 1004 a 0 0 else []
-         | _ => [] end) tr ++
       (* GracefulStop returns once the RPCs that were in flight have finished (1005), judged at the
          end of a drained scenario: no call pending, every started handler has exited *)
       (match td with
@@ -532,7 +536,11 @@ Definition mon_C17 (c : cfg) (tr : trace) : list failure :=
          | (a, ROk, idx, _, _, ctxtmd, _, has2, tc) =>
              (if negb multi && negb (Z.eqb tc (Z.of_N t)) then fl 1704 a (zr r) tc else []) ++
              (match find (fun o : N * option mdt * str => match o with (t', _, _) => Z.eqb (Z.of_N t') tc end) opened with
-              | Some (_, omd_, _) => if md_eqb (omd ctxtmd) (omd omd_) then [] else fl 1701 a (zr r) 2
+              | Some (_, omd_, _) =>
+                  match ctxtmd with
+                  | Some m => if md_eqb m (omd omd_) then [] else fl 1701 a (zr r) 2
+                  | None => []      (* not observed (call made through Invoke) *)
+                  end
               | None => [] end)
          | _ => [] end) news
     end) (rpcs_of tr).
